@@ -62,6 +62,16 @@ RULE = ('UGRID datasets built from structured meshes (lattice cut-outs mixing tr
         'masked one, two sides numbered alike, an edge_face row listing other faces / the same faces once too '
         'often, a table with a row too few): IndexError, a masked row, or the fall-back to the own numbering, as '
         'modelled. '
+        'And the INDEX BASE PER TABLE (start_index is an attribute of each connectivity variable): every pool mesh x '
+        'non-empty sets of supplied tables x which tables count from the other base than the rest (face_node alone, '
+        'one supplied table, all supplied tables, face_node and one supplied table) x base x fill kind, the '
+        'zero-based tables with or without the attribute; every third numbering case likewise. '
+        'And a HISTORY (the dataset is not the first one the process looks at): another valid mesh on the same '
+        'nodes (faces in another order / fewer / begun at another corner, other optional tables) was written to the '
+        'SAME file path, opened and all its tables asked for before the file is replaced by the mesh of the case '
+        'and opened again; or the dataset is what Dataset.isel makes of an opened file whose tables were asked '
+        'for (faces reordered with none / edge_node supplied, or some faces taken) -- three in four through a real '
+        'netCDF file, the rest in memory; the model and the oracle see the last dataset only. '
         'Compared per dataset, in one line: face_node_array, '
         'edge_node_array, face_edge_array, edge_face_array, face_face_array (raw, masked cells as "-", exceptions as '
         'a small enum), the five has_valid_* flags, the five discovered dimension names, the polygon vertex rings '
@@ -83,6 +93,9 @@ TRUSTED = [
     'the order in which emsarray numbers derived edges where the dataset numbers none (no valid edge_node, '
     'face_edge or edge_face table, or an edge_face table that does not describe the sides) is read from emsarray '
     'and validated by the model (Ems.Mesh.isRenumbering) before use',
+    'xarray: to_netcdf / open_dataset at one path (a history case replaces the file and opens it again), '
+    'Dataset.isel along the face dimension (rows of the face tables taken in the given order, everything else '
+    'and .encoding kept); '
     'xarray: Dataset.copy() / assign_attrs / isel(slice(None)) hand out new dataset objects over the same '
     'variable data (what makes the second look a look at the same variables); the integer storage type of a '
     'table is not part of the model (its tables are unbounded integers): the medium meshes beyond the first '
@@ -266,9 +279,15 @@ def oracle(ctx, recipe: dict, built: G.Built, obs: Observed, expect_valid: set) 
     return {sig for sig, _ in found}
 
 
-def build(recipe: dict) -> G.Built:
-    """`mesh.build` plus the storage type of the integer tables (`recipe['c10']['storage']`)"""
-    built = M.build(recipe)
+def build(recipe: dict, path: str | None = None) -> G.Built:
+    """`mesh.build` plus the storage type of the integer tables (`recipe['c10']['storage']`); with `path`,
+    the netCDF round trip of the recipe goes through a file at that path (replacing what was there)"""
+    opt = recipe.get('c10', {})
+    if path is not None and opt.get('netcdf'):
+        built = M.build(dict(recipe, c10={k: v for k, v in opt.items() if k != 'netcdf'}))
+        built.ds = X.via_file(built.ds, path)
+    else:
+        built = M.build(recipe)
     st = recipe.get('c10', {}).get('storage')
     if st:
         built.extra['storage_cast'] = X.apply_storage(built, st)
@@ -281,7 +300,11 @@ def observe(recipe: dict, built: G.Built | None = None) -> tuple:
     The dataset is described for the model BEFORE emsarray sees it: the model's input is what was handed
     to emsarray, not what is left of it afterwards. With `recipe['c10']['relook']` the same variables are
     then looked at a second time through a second dataset object and a fresh accessor (`Observed.second`)."""
-    if built is None:
+    if built is None and recipe.get('c10', {}).get('history'):
+        # (what emsarray answers about the earlier datasets of the history is not judged here: they are
+        # cases of their own elsewhere; an exception there is an observation like any other)
+        built = X.with_history(recipe, build, Observed)
+    elif built is None:
         built = build(recipe)
     pre = M.describe(built.ds, None)
     obs = Observed(built)
@@ -314,6 +337,10 @@ def shrink(recipe: dict, sig: str, expect_valid: set) -> dict:
     # faces: chunks of halving size, then single faces until none can go (a budget keeps a medium mesh
     # whose failure needs most of its faces from costing minutes)
     budget = [250]
+    hist = cur.get('c10', {}).get('history') or {}
+    if hist.get('how') == 'isel' and cur['enc'].get('tables'):
+        # (the supplied tables of the file describe all of its faces: none can go)
+        budget = [0]
     chunk = max(1, len(cur['faces']) // 2)
     while chunk >= 1 and budget[0] > 0:
         progress = False
@@ -338,6 +365,10 @@ def shrink(recipe: dict, sig: str, expect_valid: set) -> dict:
     for t in list(cur['enc'].get('tables', [])):
         cand = dict(cur, enc=dict(cur['enc'], tables=[x for x in cur['enc']['tables'] if x != t]))
         if still(cand):
+            cur = cand
+    for t in list(cur['enc'].get('other_base_tables', [])):
+        cand = dict(cur, enc=dict(cur['enc'], other_base_tables=[x for x in cur['enc']['other_base_tables'] if x != t]))
+        if cand['enc']['other_base_tables'] and still(cand):
             cur = cand
     return cur
 
@@ -524,7 +555,8 @@ def enc_key(enc: dict, opt: dict) -> tuple:
     return (enc.get('start_index'), enc.get('fill'), enc.get('transposed'), tuple(enc.get('tables', [])),
             enc.get('edge_dim_declared'), enc.get('coords_as', 'vars'), enc.get('face_coords'),
             enc.get('start_index_spelling', 'int'), bool(opt.get('netcdf')), bool(opt.get('drop_edge_id')),
-            enc.get('fill_spec', 'i4big'), opt.get('relook'), str(opt.get('storage')))
+            enc.get('fill_spec', 'i4big'), opt.get('relook'), str(opt.get('storage')),
+            tuple(enc.get('other_base_tables', [])), enc.get('explicit_start_index', True))
 
 
 def is_uniform(faces: list) -> bool:
@@ -714,6 +746,8 @@ def run(ctx) -> None:
     for mesh in lattices:
         sampled_cases(ctx, items, mesh)
     storage_cases(ctx, items, pool)
+    mixed_base_cases(ctx, items, pool)
+    history_cases(ctx, items, pool)
     follow_cases(ctx, items, pool)
     malformed(ctx, items, pool)
     # conclusions of the theorems, evaluated on the model
@@ -725,6 +759,114 @@ def run(ctx) -> None:
         return
     ctx.check_batch(items)
     settle_flagged(ctx)
+
+
+def mixed_base_cases(ctx, items: list, pool: list) -> None:
+    """`start_index` is an attribute of EACH connectivity table: one file may count its nodes from one in
+    face_node and its edges from zero in edge_node (or the reverse, or say nothing on the zero-based ones).
+    Every pool mesh x non-empty sets of supplied tables x which tables are on the other base (face_node alone,
+    one supplied table, all supplied tables, face_node and one supplied table) x base x fill kind x spelling /
+    omission of the attribute: the normalised topology is that of the mesh, every supplied table as given."""
+    subsets = [list(s) for n in range(1, 5) for s in itertools.combinations(M.TABLES, n)]
+    n = 0
+    for m, mesh in enumerate(pool):
+        faces = mesh['faces']
+        edges = M.shuffled_edges(ctx.rng, faces)
+        # (small special meshes: every subset; the others: a walk through the subsets)
+        mine = subsets if len(faces) <= 3 or ctx.thorough else [subsets[(m + 4 * k) % len(subsets)] for k in range(4)]
+        for tables in mine:
+            mixes = X.base_mixes(tables)
+            for mix in (mixes if ctx.thorough or len(faces) <= 2 else [mixes[(n + k) % len(mixes)] for k in range(2)]):
+                n += 1
+                fill = ('nan', 'attr', 'attr', 'nan', 'nc')[n % 5]
+                opt = {}
+                if fill == 'nc':
+                    fill = 'attr'
+                    if ctx.thorough or n % 10 == 4:
+                        opt['netcdf'] = True
+                enc = {'start_index': n % 2, 'fill': fill, 'transposed': n % 7 == 3, 'tables': list(tables),
+                       'edge_dim_declared': n % 3 != 0, 'other_base_tables': list(mix)}
+                if n % 4 == 1:
+                    # the zero-based tables say nothing about their base
+                    enc['explicit_start_index'] = False
+                if n % 6 == 2:
+                    enc['start_index_spelling'] = 'np'
+                if fill == 'attr' and n % 3 == 1:
+                    enc['fill_spec'] = ('low', 'neg', 'i2')[(n // 3) % 3]
+                if n % 8 == 5:
+                    opt['relook'] = next_relook(ctx)
+                recipe = {'conv': 'ugrid', 'nodes': mesh['nodes'], 'faces': faces, 'edges': edges, 'enc': enc}
+                if opt:
+                    recipe['c10'] = opt
+                one_case(ctx, items, recipe, set(tables), 'mixed-base')
+                ctx.nontrivial((mesh['name'], 'mixed-base', enc_key(enc, opt)))
+                ctx.count('mixed-base:' + ('face_node' if mix == ['face_node'] else
+                                           'supplied' if 'face_node' not in mix else 'face_node+supplied'))
+
+
+HISTORY_TABLES = [[], ['edge_node'], ['face_edge'], ['edge_face'], ['face_face'], ['edge_node', 'face_edge'],
+                  ['edge_face', 'face_face']]
+
+
+def history_cases(ctx, items: list, pool: list) -> None:
+    """A dataset is not the first one a process looks at. Two ordinary histories, each ending with a valid
+    mesh whose normalised topology must be that of ITS faces:
+    'replaced'  another mesh on the same nodes (the faces in another order / fewer of them / each begun at
+                another corner; possibly with other optional tables) was written to the same path, opened and
+                all its tables asked for; the file is then replaced and opened again;
+    'isel'      a file is opened, all its tables asked for, and its faces are reordered (tables supplied:
+                none or edge_node, the only one that does not name faces) or some of them taken
+                (`Dataset.isel` along the face dimension; no edge variable in the file).
+    Three in four go through a real netCDF file (the dataset knows its source), the others stay in memory.
+    The model sees the last dataset only: what came before is no part of the mesh."""
+    rng = ctx.rng
+    n = 0
+    for mesh in pool:
+        faces = mesh['faces']
+        if len(faces) < 2:
+            continue
+        for _rep in range(ctx.budget(1, 2)):
+            others = X.earlier_meshes(rng, faces)
+            for kind in ('reordered', 'fewer', 'rewound', 'isel-reordered', 'isel-fewer', 'isel-reordered'):
+                n += 1
+                opt = {}
+                if n % 4 != 3:
+                    opt['netcdf'] = True
+                enc = {'start_index': n % 2, 'fill': 'attr' if n % 3 else 'nan',
+                       'transposed': n % 5 == 2, 'edge_dim_declared': True}
+                if kind.startswith('isel'):
+                    if kind == 'isel-fewer':
+                        tables = []
+                        opt['drop_edge_id'] = True
+                        mine = others['fewer']
+                        rng.shuffle(mine)
+                        file_faces, file_edges = faces, None
+                        edges = None
+                    else:
+                        tables = [[], ['edge_node']][(n // 6) % 2]
+                        mine = others['reordered']
+                        file_faces = faces
+                        edges = file_edges = M.shuffled_edges(rng, faces)
+                    opt['history'] = {'how': 'isel', 'file_faces': file_faces, 'file_edges': file_edges}
+                else:
+                    mine = faces
+                    tables = HISTORY_TABLES[n % len(HISTORY_TABLES)]
+                    earlier = others[kind]
+                    if kind == 'fewer':
+                        # (the earlier file has its own edges)
+                        early_tables = [[], ['face_face']][n % 2]
+                        early_edges = None
+                    else:
+                        early_tables = HISTORY_TABLES[(n // 2) % len(HISTORY_TABLES)]
+                        early_edges = M.shuffled_edges(rng, earlier)
+                    edges = M.shuffled_edges(rng, faces)
+                    opt['history'] = {'how': 'replaced',
+                                      'earlier': [{'faces': earlier, 'edges': early_edges, 'tables': early_tables}]}
+                enc['tables'] = list(tables)
+                recipe = {'conv': 'ugrid', 'nodes': mesh['nodes'], 'faces': mine, 'edges': edges, 'enc': enc, 'c10': opt}
+                one_case(ctx, items, recipe, set(tables), 'history')
+                ctx.nontrivial((mesh['name'], 'history', n, kind, enc_key(enc, opt)))
+                ctx.count(f"history:{kind}:{'file' if opt.get('netcdf') else 'memory'}")
 
 
 FOLLOW_TABLES = [['face_edge'], ['edge_face'], ['face_edge', 'edge_face'], ['face_edge', 'face_face'],
@@ -788,6 +930,10 @@ def follow_cases(ctx, items: list, pool: list) -> None:
                     enc['fill_spec'] = ('low', 'neg', 'u4max')[(n // 7) % 3]
                 if n % 6 == 5:
                     opt['relook'] = next_relook(ctx)
+                if n % 3 == 1:
+                    # (the table that numbers the edges need not count from where face_node counts from)
+                    mixes = X.base_mixes(tables)
+                    enc['other_base_tables'] = mixes[(n // 3) % len(mixes)]
                 recipe = {'conv': 'ugrid', 'nodes': mesh['nodes'], 'faces': faces, 'edges': edges, 'enc': enc}
                 if opt:
                     recipe['c10'] = opt
